@@ -636,3 +636,72 @@ Proof.
       apply HN. split; [exact (proj1 R TR)| exact (proj1 D TD)].
   - split; [discriminate|tauto].
 Qed.
+
+(* ================================================================== tuples inside split values *)
+
+Lemma telements_leaf n z : telements n (TLeaf z) = [TLeaf z].
+Proof. destruct n; reflexivity. Qed.
+
+Lemma tflatten_spec d : forall v, tflatten d v = telements d v.
+Proof.
+  induction d as [|d IH]; intros v; [reflexivity|].
+  assert (E : forall val, match val with TLeaf _ => [val] | _ => tflatten d val end = telements d val).
+  { intros [z|l|l]; [now rewrite telements_leaf| apply IH| apply IH]. }
+  destruct v as [z|l|l]; cbn [tflatten telements]; [reflexivity| |]; apply flat_map_ext; exact E.
+Qed.
+
+Definition tall_shape (f : list tvalue -> list nat) (s : list nat) (l : list tvalue) : Prop :=
+  Forall (fun v => exists ch, v = TList ch /\ f ch = s) l.
+
+Lemma tscan_Some_inv f s0 l s : tscan f (Some s0) l = Some s -> s = s0 /\ tall_shape f s0 l.
+Proof.
+  induction l as [|[z|ch|ch] l IH]; cbn [tscan]; intros H.
+  - inversion H; split; [reflexivity|constructor].
+  - discriminate.
+  - destruct (list_eqb Nat.eqb s0 (f ch)) eqn:E; [|discriminate].
+    apply nat_list_eqb_eq in E. destruct (IH H) as [-> Hl]. split; [reflexivity|].
+    constructor; [exists ch; auto|exact Hl].
+  - discriminate.
+Qed.
+
+Lemma tscan_None_inv f l s : tscan f None l = Some s -> l <> [] /\ tall_shape f s l.
+Proof.
+  destruct l as [|[z|ch|ch] r]; cbn [tscan]; try discriminate.
+  intros H. destruct (tscan_Some_inv _ _ _ _ H) as [-> Hr].
+  split; [discriminate|]. constructor; [exists ch; auto|exact Hr].
+Qed.
+
+Lemma tprod_shape_rec c : forall l, prod (tshape_rec c l) = List.length (tflatten (S c) (TList l)).
+Proof.
+  induction c as [|c IH]; intros l.
+  - cbn [tshape_rec prod fold_right tflatten].
+    rewrite (length_flat_map_const _ 1 l); [lia|].
+    apply Forall_forall. intros [z|ch|ch] _; reflexivity.
+  - cbn [tshape_rec].
+    destruct (tscan (tshape_rec c) None l) as [s|] eqn:E.
+    + destruct (tscan_None_inv _ _ _ E) as [_ Hall].
+      cbn [prod fold_right]. change (fold_right Nat.mul 1 s) with (prod s).
+      rewrite tflatten_spec. change (telements (S (S c)) (TList l)) with (flat_map (telements (S c)) l).
+      rewrite (length_flat_map_const _ (prod s) l); [reflexivity|].
+      unfold tall_shape in Hall. rewrite Forall_forall in *. intros v Hv.
+      destruct (Hall v Hv) as [ch' [-> <-]]. cbv beta. rewrite <- (tflatten_spec (S c) (TList ch')). symmetry. apply IH.
+    + cbn [prod fold_right]. lia.
+Qed.
+
+Lemma tsplit1_full n l : 1 <= n -> tsplit1 n l = Jobs (telements n (TList l)).
+Proof.
+  intros Hn. unfold tsplit1, tsingle_ind, tinput_shape, range.
+  destruct n as [|c]; [lia|]. replace (S c - 1) with c by lia.
+  rewrite tprod_shape_rec, map_nth_error_seq, sequence_map_Some, tflatten_spec. reflexivity.
+Qed.
+
+(* tuples are opened by flatten but not by input_shape: a rectangular nesting made of tuples has the flat
+   shape (count,), not its dimension vector — it only matters for the shape test of inner splitters *)
+Example tuple_jobs :
+  tsplit1 2 [TTup [TLeaf 1; TLeaf 2]; TTup [TLeaf 3]; TList [TLeaf 4; TLeaf 5]]%Z =
+  Jobs [TLeaf 1; TLeaf 2; TLeaf 3; TLeaf 4; TLeaf 5]%Z.
+Proof. vm_compute. reflexivity. Qed.
+Example tuple_shape_is_flat :
+  tinput_shape [TTup [TLeaf 1; TLeaf 2]; TTup [TLeaf 3; TLeaf 4]]%Z 2 = [4] /\
+  tinput_shape [TList [TLeaf 1; TLeaf 2]; TList [TLeaf 3; TLeaf 4]]%Z 2 = [2; 2].
+Proof. split; reflexivity. Qed.
